@@ -153,19 +153,43 @@ def renameMethods (reg : SelMap Entry) (selector : Sel) (methods : List Sel) : S
       let new := selector ++ [old.getLastD ""]
       reg'.set new { e with cfg := { e.cfg with selector := new, isMethod := true } }) reg
 
-def register (st : State) (r : RegReq) : Except Err State :=
-  if st.locked then .error .runtimeError else
-  if !r.nameValid then .error .valueError else
+/-- the checks of a registration, in the order the code makes them; `none` = accepted.  They look at the
+    lock, the interactive flag and the registry only. -/
+def regCheck (st : State) (r : RegReq) : Option Err :=
+  if st.locked then some .runtimeError else
+  if !r.nameValid then some .valueError else
   -- a dotted name ignores the default module but not an explicit one: the harness passes the
   -- effective module (explicit, or `__module__` when the name is a plain identifier)
-  if !r.moduleValid then .error .valueError else
-  if st.clashes r then .error .valueError else
-  if !r.allow.isEmpty && !r.deny.isEmpty then .error .valueError else
-  if !r.listTypesOk then .error .typeError else
-  if !(r.allow.all r.cfgable.mightHave) || !(r.deny.all r.cfgable.mightHave) then .error .valueError else
-  if !r.cfgable.requiredKwargsValid then .error .valueError else
-  .ok { st with registry := (renameMethods st.registry r.cfgable.selector r.methods).set
-                  r.cfgable.selector { cfg := r.cfgable, objId := r.objId, isClass := r.isClass } }
+  if !r.moduleValid then some .valueError else
+  if st.clashes r then some .valueError else
+  if !r.allow.isEmpty && !r.deny.isEmpty then some .valueError else
+  if !r.listTypesOk then some .typeError else
+  if !(r.allow.all r.cfgable.mightHave) || !(r.deny.all r.cfgable.mightHave) then some .valueError else
+  if !r.cfgable.requiredKwargsValid then some .valueError else
+  none
+
+def register (st : State) (r : RegReq) : Except Err State :=
+  match st.regCheck r with
+  | some e => .error e
+  | none =>
+    .ok { st with registry := (renameMethods st.registry r.cfgable.selector r.methods).set
+                    r.cfgable.selector { cfg := r.cfgable, objId := r.objId, isClass := r.isClass } }
+
+theorem register_ok {st st' : State} {r : RegReq} (h : st.register r = .ok st') :
+    st.regCheck r = none ∧
+    st' = { st with registry := ((renameMethods st.registry r.cfgable.selector r.methods).set
+              r.cfgable.selector { cfg := r.cfgable, objId := r.objId, isClass := r.isClass }) } := by
+  unfold register at h
+  split at h
+  · cases h
+  · rename_i hc; cases h; exact ⟨hc, rfl⟩
+
+theorem register_error {st : State} {r : RegReq} {e : Err} (h : st.register r = .error e) :
+    st.regCheck r = some e := by
+  unfold register at h
+  split at h
+  · rename_i e' hc; cases h; exact hc
+  · cases h
 
 /-! ### calling a configurable under an active scope -/
 
